@@ -313,6 +313,17 @@ class Interp:
             return tuple(self._to_list(args[0])) if args else ()
         if name == 'builtins.bool':
             return self.truth(args[0]) if args else False
+        if name == 'builtins.enumerate':
+            start = args[1] if len(args) > 1 else kwargs.get('start', 0)
+            return list(enumerate(self._to_list(args[0]), start))
+        if name == 'builtins.zip':
+            return list(zip(*[self._to_list(a) for a in args]))
+        if name == 'builtins.reversed':
+            return list(reversed(self._to_list(args[0])))
+        if name == 'builtins.frozenset':
+            return frozenset(self._to_list(args[0])) if args else frozenset()
+        if name == 'builtins.range' and all(isinstance(a, int) for a in args):
+            return list(range(*args))
         return TOP
 
     def _to_list(self, v) -> list:
@@ -346,6 +357,9 @@ class Interp:
             return lst if name != 'builtins.set' else set(lst)
         if name == 'builtins.len':
             return len(self._to_list(args[0]))
+        if name in ('networkx.topological_sort', 'networkx.lexicographical_topological_sort') and args and isinstance(args[0], AObj) \
+                and 'nodes' in args[0].attrs and args[0].attrs['nodes'] is not TOP:
+            return self._to_list(args[0].attrs['nodes'])          # some order of the abstract graph's nodes
         if name == 'builtins.getattr' and len(args) >= 2 and isinstance(args[1], str):
             obj = args[0]
             if isinstance(obj, AObj) and args[1] in obj.attrs:
@@ -437,6 +451,14 @@ class Interp:
                 return None
             if last == 'copy':
                 return set(recv)
+            if last in ('intersection', 'union', 'difference', 'symmetric_difference') and args:
+                others = [set(self._to_list(a)) for a in args]
+                res = set(recv)
+                for o in others:
+                    res = getattr(res, last)(o)
+                return res
+            if last in ('issubset', 'issuperset', 'isdisjoint') and args:
+                return getattr(set(recv), last)(set(self._to_list(args[0])))
         if isinstance(recv, list):
             if last == 'append':
                 recv.append(args[0])
@@ -450,6 +472,42 @@ class Interp:
     def exec_block(self, body: List[ast.stmt], env: dict) -> None:
         for st in body:
             self.exec_stmt(st, env)
+
+    _EXC_PARENTS = {'KeyError': ('LookupError',), 'IndexError': ('LookupError',), 'AttributeError': (), 'TypeError': (),
+                    'ValueError': (), 'StopIteration': (), 'RuntimeError': ()}
+
+    def _handler_matches(self, h: ast.ExceptHandler, what: str) -> bool:
+        if h.type is None:
+            return True
+        names = [(dotted(t) or '').split('.')[-1] for t in (h.type.elts if isinstance(h.type, ast.Tuple) else [h.type])]
+        for n in names:
+            if n in ('Exception', 'BaseException'):
+                return True
+            if n and n in what:
+                return True
+            for child, parents in self._EXC_PARENTS.items():
+                if child in what and n in parents:
+                    return True
+        return False
+
+    def _exec_try(self, st: ast.Try, env: dict) -> None:
+        try:
+            try:
+                self.exec_block(st.body, env)
+            except ARaise as ex:
+                for h in st.handlers:
+                    if self._handler_matches(h, ex.what):
+                        if h.name:
+                            env[h.name] = AObj(('ext', 'builtins.Exception'), {'args': ()}, tag=f'caught:{ex.what[:40]}')
+                        self.exec_block(h.body, env)
+                        break
+                else:
+                    raise
+            else:
+                self.exec_block(st.orelse, env)
+        finally:
+            if st.finalbody:
+                self.exec_block(st.finalbody, env)
 
     def exec_stmt(self, st: ast.stmt, env: dict) -> None:
         self.tick()
@@ -510,6 +568,21 @@ class Interp:
                     return
                 raise
             return
+        if isinstance(st, ast.Try):
+            self._exec_try(st, env)
+            return
+        if isinstance(st, ast.AugAssign) and isinstance(st.target, ast.Name):
+            cur = self.lookup(st.target.id, env)
+            val = self.eval(st.value, env)
+            if cur is TOP or val is TOP:
+                env[st.target.id] = TOP
+            elif isinstance(st.op, ast.Add) and isinstance(cur, (int, float)) and isinstance(val, (int, float)):
+                env[st.target.id] = cur + val
+            elif isinstance(st.op, ast.Sub) and isinstance(cur, (int, float)) and isinstance(val, (int, float)):
+                env[st.target.id] = cur - val
+            else:
+                raise AnalysisError(f'abstract interpretation: unsupported augmented assignment {unparse(st)}')
+            return
         if isinstance(st, ast.Delete):
             for tgt in st.targets:
                 if isinstance(tgt, ast.Subscript):
@@ -545,6 +618,11 @@ class Interp:
             cont = self.eval(tgt.value, env)
             key = self.eval(tgt.slice, env)
             if cont is TOP:
+                return
+            if isinstance(cont, list) and isinstance(key, int):
+                if not -len(cont) <= key < len(cont):
+                    raise ARaise('IndexError')
+                cont[key] = v
                 return
             self._dict_of(cont)[key] = v
             return
@@ -749,7 +827,18 @@ class Interp:
         if isinstance(e, ast.Lambda):
             return AFunc(self.p.unit_of_node[id(e)], None, env)
         if isinstance(e, ast.JoinedStr):
-            return TOP
+            parts = []
+            for v in e.values:
+                if isinstance(v, ast.Constant):
+                    parts.append(str(v.value))
+                elif isinstance(v, ast.FormattedValue) and v.format_spec is None and v.conversion == -1:
+                    x = self.eval(v.value, env)
+                    if not isinstance(x, (str, int)) or isinstance(x, bool):
+                        return TOP
+                    parts.append(str(x))
+                else:
+                    return TOP
+            return ''.join(parts)
         if isinstance(e, ast.Await):
             return self.eval(e.value, env)
         raise AnalysisError(f'abstract interpretation: unsupported expression {type(e).__name__}: {unparse(e)}')
